@@ -1079,6 +1079,10 @@ def run(ck):
     late_results = late_definitions(ck, rng, fails, T, 8 if thorough else 2)
     phase("late definitions")
 
+    # ---------------------------------------------------------------- (I) a unit that becomes an offset unit after lookups
+    late_results += late_offsets(ck, rng, fails, T, 6 if thorough else 2)
+    phase("late offsets")
+
     # ---------------------------------------------------------------- differ inside Coq
     shard = max(20, min(400, -(-len(cases) // (2 * (os.cpu_count() or 4)))))
     bad = ck.coq_mismatches("c08", HEADER, cases, "ok", shard=shard, timeout=1100)
@@ -1354,6 +1358,102 @@ def late_definitions(ck, rng, fails, T, rounds):
     return out
 
 
+def late_offsets(ck, rng, fails, T, rounds):
+    """"Offset units cannot be prefixed" after arbitrary earlier lookups: prefixed spellings of a multiplicative unit
+    are looked up, THEN the unit becomes an offset unit (an active context redefines it with an offset, or a later
+    define() does), THEN the spellings are looked up again.  Judged by get_name and get_root_units (parse_units may
+    answer from the parse cache): OffsetUnitCalculusError, exactly like a registry B that made the change before any
+    lookup; leaving the context gives the earlier answers back.  The define() variant is also compared with the
+    Coq model of the final definition text."""
+    import pint
+    out = []
+    tmp = Path(tempfile.mkdtemp(prefix="c08off"))
+    bases = [("kelvin", "2"), ("bar", "1"), ("pascal", "3"), ("kelvin", "5 / 9"), ("meter", "7")]
+    pk = [k for k in T.pkeys if k]
+    try:
+        for ri in range(rounds):
+            variant = ["context", "define"][ri % 2]
+            tag = f"zq{ri}"
+            name, sym, al = f"{tag}gauge", f"{tag}gg", f"{tag}_gauge_alias"
+            base, scale = rng.choice(bases)
+            mult_line = f"{name} = {scale} * {base} = {sym} = {al}"
+            off = rng.choice(["100", "1.01325", "273.15"])
+            off_line = f"{name} = {scale} * {base}; offset: {off}"
+
+            def build():
+                r = Impl()
+                r.u.define(mult_line)
+                if variant == "context":
+                    ctx = pint.Context(f"shift{ri}")
+                    ctx.redefine(off_line)
+                    r.u.add_context(ctx)
+                return r
+
+            def change(r):
+                if variant == "context":
+                    r.u.enable_contexts(f"shift{ri}")
+                else:
+                    r.u.define(off_line + f" = {sym} = {al}")
+
+            spell = [p + u + x for p in rng.sample(pk, 12) for u in (name, sym, al) for x in ("", "s")]
+            spell = [x for x in dict.fromkeys(spell) if IDENT.fullmatch(x) and lex_ok(x) is not None]
+
+            def outcome(r, x):
+                return (r.call(("name", None, x)), r.call(("roots", x)))
+
+            A, B = build(), build()
+            asked, before = [], {}
+            warm_apis = ["name", "parse", "symbol", "in", "units"] + (["roots", "qto"] if variant == "context" else [])
+            for x in rng.sample(spell, int(len(spell) * 0.7)):
+                for api in rng.sample(warm_apis, rng.randint(1, 3)):
+                    op = (api, None, x) if api in ("name", "parse", "symbol") else (api, x, None, None) if api == "units" else (api, x)
+                    asked.append((op, A.call(op)))
+            if variant == "context":
+                before = {x: outcome(A, x) for x in spell}
+            change(A)
+            change(B)
+            rp0 = {"variant": variant, "defined_first": mult_line, "asked_while_multiplicative": [list(op) for op, _ in asked],
+                   "then": (f"enable_contexts: {off_line}" if variant == "context" else f"define: {off_line} = {sym} = {al}")}
+            nbad, seq = 0, []
+            for x in spell:
+                a, b = outcome(A, x), outcome(B, x)
+                seq.append((("name", None, x), a[0]))
+                ck.case(key=("late-offset", ri, x), nontrivial=True, n=2)
+                if a != b or a[0] != ("err", "KOffset"):
+                    nbad += 1
+                    fails.add(f"offset-after-lookup:{variant}:{x}",
+                              f"{name} is an offset unit now ({rp0['then']}), but get_name / get_root_units of {x!r} give {a} on a registry "
+                              f"that looked such spellings up while the unit was multiplicative; the change made first gives {b}",
+                              {**rp0, "string": x, "A": a, "B": b})
+            if variant == "context":
+                A.u.disable_contexts()
+                for x in spell:
+                    a = outcome(A, x)
+                    if a != before[x]:
+                        nbad += 1
+                        fails.add(f"offset-context-left:{x}", f"after leaving the context {x!r} gives {a}, before entering it {before[x]}",
+                                  {**rp0, "string": x, "after": a, "before": before[x]})
+                bad = []
+            else:
+                extra = tmp / f"off{ri}.txt"
+                extra.write_text(mult_line + "\n" + off_line + f" = {sym} = {al}\n", encoding="utf-8")
+                raw = coq_list([t1_defs.coq_rawdef(d) for d in t1_defs.parse_file(extra)["defs"]])
+                header = (HEADER.split("Definition R0")[0] + f"Definition RX : nreg := nreg_of (default_raw ++ {raw}).\n"
+                          "Definition ok (k : ncase) : bool := c08_ok RX k.\n")
+                cases = [f"NSeq {coq_cfg()} {coq_list([coq_op(op, o) for op, o in seq])}"]
+                bad = ck.coq_mismatches(f"c08off{ri}", header, cases, "ok", shard=4, timeout=600)
+            out.append({"round": f"offset-{ri}", "variant": variant, "definitions": [mult_line, rp0["then"]], "spellings": len(spell),
+                        "asked_before": len(asked), "answers_wrong_or_differing": nbad,
+                        "disagreements": None if bad is None else len(bad),
+                        "first": {"late offset": rp0["then"]} if bad else None})
+            ck.count("late offsets: prefixed spellings asked before and after the unit became an offset unit", len(spell))
+    finally:
+        for f in tmp.glob("*"):
+            f.unlink()
+        tmp.rmdir()
+    return out
+
+
 def replay(ck, path):
     import json
     d = json.load(open(path))
@@ -1361,6 +1461,32 @@ def replay(ck, path):
     rp = d.get("replay", {})
     if rp.get("definitions"):
         print("(generated registry: load the 'definitions' text with pint.UnitRegistry(<file>) to reproduce)")
+        return 0
+    if rp.get("asked_while_multiplicative") is not None:
+        import pint
+
+        def build():
+            r = Impl()
+            r.u.define(rp["defined_first"])
+            if rp["variant"] == "context":
+                ctx = pint.Context("shift")
+                ctx.redefine(rp["then"].split(": ", 1)[1])
+                r.u.add_context(ctx)
+            return r
+
+        def change(r):
+            if rp["variant"] == "context":
+                r.u.enable_contexts("shift")
+            else:
+                r.u.define(rp["then"].split(": ", 1)[1])
+        a, b = build(), build()
+        for c in rp["asked_while_multiplicative"]:
+            a.call(tuple(c))
+        change(a)
+        change(b)
+        x = rp["string"]
+        print("looked up first, then changed:", a.call(("name", None, x)), a.call(("roots", x)))
+        print("changed first:", b.call(("name", None, x)), b.call(("roots", x)))
         return 0
     impl = Impl()
     if rp.get("then_defined"):
